@@ -74,6 +74,15 @@ IsoAncestors(d, f, t) ==
       at == StackAt(d, t) IN
   {af[k] : k \in {j \in 1..Min2(Len(af), Len(at)) : af[j] = at[j] /\ Flag(d[af[j]].t, "isolating")}}
 (* the isolating node opened at o survives unchanged outside its content *)
+(* weaker: everything up to and including the node's open token is unchanged (the node was
+   not removed, retyped or merged into a predecessor), but what follows is not the edited
+   content + the old tail: payload was placed outside the node *)
+IsoIntactButLeaky(d, out, o) ==
+  LET c == MatchArr(d)[o]
+      tail == Len(d) - c IN
+  /\ Len(out) >= o + 1
+  /\ Unflag(SubSeq(out, 1, o)) = Unflag(SubSeq(d, 1, o))
+  /\ Balanced(out)
 IsoPreserved(d, out, o) ==
   LET c == MatchArr(d)[o]
       tail == Len(d) - c IN
